@@ -754,12 +754,71 @@ def evaluate_given(cases, label='search') -> List[dict]:
     return recs
 
 
+def spec_candidates(spec):
+    """smaller spec trees: replace a node by one of its children, drop sequence parts, drop decorations"""
+    out = []
+
+    def rec(node, rebuild):
+        for c in ptgen.children(node):
+            out.append(rebuild(copy.deepcopy(c)))
+        k = node['k']
+        if k == 'seq' and len(node['subs']) > 1:
+            for i in range(len(node['subs'])):
+                n = copy.deepcopy(node)
+                del n['subs'][i]
+                out.append(rebuild(n))
+        for key in ('meas', 'cons'):
+            if node.get(key):
+                n = copy.deepcopy(node)
+                n[key] = []
+                out.append(rebuild(n))
+        if k == 'rep' and node['count'] not in ('1', '2'):
+            for cnt in ('1', '2'):
+                n = copy.deepcopy(node)
+                n['count'] = cnt
+                out.append(rebuild(n))
+        if k == 'for' and node['range'] != ['0', '2', '1']:
+            n = copy.deepcopy(node)
+            n['range'] = ['0', '2', '1']
+            out.append(rebuild(n))
+        if k == 'table':
+            for ci, (ch, es) in enumerate(node['entries']):
+                if len(es) > 2:
+                    for i in range(len(es)):
+                        n = copy.deepcopy(node)
+                        del n['entries'][ci][1][i]
+                        out.append(rebuild(n))
+        # descend
+        if k in ('seq', 'amulti'):
+            for i, c in enumerate(node['subs']):
+                def rb(x, i=i, node=node):
+                    n = copy.deepcopy(node)
+                    n['subs'][i] = x
+                    return rebuild(n)
+                rec(c, rb)
+        elif k == 'aarith':
+            for key in ('lhs', 'rhs'):
+                def rb(x, key=key, node=node):
+                    n = copy.deepcopy(node)
+                    n[key] = x
+                    return rebuild(n)
+                rec(node[key], rb)
+        elif 'body' in node:
+            def rb(x, node=node):
+                n = copy.deepcopy(node)
+                n['body'] = x
+                return rebuild(n)
+            rec(node['body'], rb)
+
+    rec(spec, lambda x: x)
+    return out
+
+
 def shrink(ctx, rec, clause, rounds=6):
     """delta debugging on the spec tree; a candidate is kept if the judge reports the same clause"""
-    import c01
     best = rec
     for _ in range(rounds):
-        cands = c01._candidates(best['case']['spec'])[:50]
+        cands = spec_candidates(best['case']['spec'])[:50]
         cases = []
         for s in cands:
             c = copy.deepcopy(best['case'])
